@@ -18,6 +18,15 @@ Tie:
                handle) has changed the pack directory; oracle as in `logical`, by a fresh store and by C git (cat-file,
                fsck), whether the op returned or raised; model vs real with the handle's view of the packs (cached
                entries whose files are gone included): resulting layout and whether PackFileDisappeared was raised.
+  sched.writer a maintenance actor (repack, pack_loose_objects, gc grace 0/None/3600, porcelain.gc) interleaved at
+               system-call granularity (blocks end at pack-directory listings / renames / unlinks; <= 2 pre-emptions
+               exhaustive, random beyond) with a WRITER (add_objects / add_pack()+commit / add_thin_pack / a local fetch by a
+               second Repo, then set_if_equals of a ref; in thorough a real `git fetch` / `git push` process between
+               maintenance blocks); oracle after both finished: every ref's closure readable by a fresh store, git fsck
+               --connectivity-only clean, nothing gone that was reachable or young when maintenance started, the
+               writer's objects not gone (except the exempted no-grace prune of objects not yet referenced at scan
+               time); model vs real: the repack procedure of the Lean model (removal targets = snapshot) on the
+               abstracted run.
   scheduler    reader actor(s) (store[id], id in store, iteration) interleaved at system-call granularity with a
                repacking actor (harness/sched.py); oracle: an object that exists throughout is never reported
                missing; model vs real: the sequence of system calls with outcomes, result and pack cache of every
@@ -122,6 +131,21 @@ def translate(repo: Path) -> dict:
     if branch is None:
         raise T.TranslateError("_complete_pack: `if pack.name() == pack_name` not found")
     refreshes = any(isinstance(n, ast.Attribute) and n.attr == "utime" for n in ast.walk(branch))
+    # repack(): does the removal loop iterate a variable bound BEFORE the copy (the snapshot), not a fresh listing?
+    rp = T.find_def(os_tree, "PackBasedObjectStore.repack")
+    copy_at = [n.lineno for n in ast.walk(rp) if isinstance(n, ast.Call) and isinstance(n.func, ast.Attribute)
+               and n.func.attr == "add_objects"]
+    loops = [n for n in ast.walk(rp) if isinstance(n, ast.For) and any(
+        isinstance(c, ast.Call) and isinstance(c.func, ast.Attribute) and c.func.attr == "_remove_pack" for c in ast.walk(n))]
+    if len(copy_at) != 1 or len(loops) != 1:
+        raise T.TranslateError(f"repack: expected one add_objects call and one removal loop ({copy_at}, {len(loops)})")
+    it_names = {n.id for n in ast.walk(loops[0].iter) if isinstance(n, ast.Name)} - {"self"}
+    fresh = any((isinstance(n, ast.Attribute) and n.attr in ("packs", "_pack_cache")) or
+                (isinstance(n, ast.Call) and isinstance(n.func, ast.Attribute) and
+                 n.func.attr in ("_update_pack_cache", "_iter_cached_packs")) for n in ast.walk(loops[0].iter))
+    bound = [n.lineno for n in ast.walk(rp) if isinstance(n, (ast.Assign, ast.AnnAssign))
+             for t in (n.targets if isinstance(n, ast.Assign) else [n.target]) if isinstance(t, ast.Name) and t.id in it_names]
+    snapshot_only = bool(it_names) and not fresh and bool(bound) and max(bound) < copy_at[0] < loops[0].lineno
     progs = _recorded_programs(repo)
 
     def prog(name):
@@ -166,6 +190,11 @@ def packLooseProtected : List Nat := {progs["packloose"]["prot"]}
 def gcProgram : List (Nat × Nat) := {prog("gc")}
 def gcNewPack : Nat := {progs["gc"]["new"]}
 def gcProtected : List Nat := {progs["gc"]["prot"]}
+/-- `repack()`'s removal loop iterates a variable bound before the copy (`old_packs`), not a fresh directory listing -/
+def repackRemovesSnapshotOnly : Bool := {"true" if snapshot_only else "false"}
+/-- the same recorded programs with the pack-directory listings (tag 6) in place -/
+def repackProgramL : List (Nat × Nat) := {prog("repackL")}
+def gcProgramL : List (Nat × Nat) := {prog("gcL")}
 end Dulwich.Gen.GC
 """
     return {"GC": src}
@@ -192,6 +221,7 @@ def _abstract_program(events, objdir_rel="objects"):
     import re
     packs, objs, prog = {}, {}, []
     new = 0
+    lists = []   # positions (in prog) before which a pack-directory listing happened
 
     def pk(name):
         return packs.setdefault(name, len(packs) + 1)
@@ -202,6 +232,9 @@ def _abstract_program(events, objdir_rel="objects"):
         if outcome != "ok":
             continue
         dst = paths[-1] if paths else ""
+        if call == "listdir" and dst == objdir_rel + "/pack":
+            lists.append(len(prog))
+            continue
         m = re.fullmatch(objdir_rel + r"/pack/((?:pack|loose)-[0-9a-f]+)\.(pack|idx)", dst or "")
         if call in ("rename", "replace") and m:
             prog.append((ACT["installData"] if m.group(2) == "pack" else ACT["installIdx"], pk(m.group(1))))
@@ -216,7 +249,12 @@ def _abstract_program(events, objdir_rel="objects"):
             prog.append((ACT["delLoose"], ob(m.group(1) + m.group(2))))
         elif m and call in ("rename", "replace"):
             prog.append((ACT["addLoose"], ob(m.group(1) + m.group(2))))
-    return prog, new, objs, packs
+    progl = []
+    for i, a in enumerate(prog + [None]):
+        progl += [(6, 0)] * lists.count(i)
+        if a is not None:
+            progl.append(a)
+    return prog, new, objs, packs, progl
 
 
 def _record_main():
@@ -256,7 +294,7 @@ def _record_main():
         r.refs[b"refs/heads/main"] = c.id
         r.close()
         r = Repo(str(root))
-        with sched.Recorder(str(root)) as rec:
+        with sched.Recorder(str(root), reads=True) as rec:
             if name == "repack":
                 r.object_store.repack()
             elif name == "packloose":
@@ -264,7 +302,8 @@ def _record_main():
             else:
                 garbage_collect(r, grace_period=0)
         r.close()
-        prog, new, objs, packs = _abstract_program(rec.events)
+        prog, new, objs, packs, progl = _abstract_program(rec.events)
+        out[name + "L"] = {"prog": progl}
         newname = [n for n, k in packs.items() if k == new]
         in_new = _idx_ids(root / "objects" / "pack" / (newname[0] + ".idx")) if newname else set()
         out[name] = {"prog": prog, "new": new, "prot": sorted(k for h, k in objs.items() if h in in_new)}
@@ -940,6 +979,7 @@ CLS_LOOKUP_MOVE = "reader-loose-miss-after-pack-probe-during-pack-loose"
 CLS_ITER_MOVE = "iter-loose-miss-after-pack-scan-during-pack-loose"
 CLS_ITER_SKIP = "iter-skips-disappeared-pack-without-rescan"
 CLS_RETRY = "reader-rescan-attempts-exhausted-by-successive-repacks"
+CLS_TMPPRUNE = "gc-grace0-tempfile-prune-deletes-pack-being-installed"
 
 
 def _reader_relevant(call, paths):
@@ -1748,7 +1788,7 @@ def _fsck_bad(path: Path, env):
     # the object database only: stale commit-graph / multi-pack-index files written by an earlier `git gc` are C14's business
     rc, out = core.sh(["git", "-C", str(path), "-c", "core.commitGraph=false", "-c", "core.multiPackIndex=false",
                        "fsck", "--no-dangling", "--no-progress"], env=env, timeout=120)
-    return {l for l in out.splitlines() if l.startswith(("missing", "broken link", "error", "fatal", "bad "))}
+    return {l for l in out.splitlines() if (l.startswith(("missing", "broken link", "error", "fatal", "bad ")) and "reflog" not in l)}
 
 
 def _git_missing(path: Path, env, ids):
@@ -1973,6 +2013,517 @@ def _stream_stale(ctx, ncases, stream="stale.maint", first_idx=0):
 
 
 # ------------------------------------------------------------------------------------------------
+# sched.writer: a WRITER lands a new pack (and points a ref at it) while maintenance runs
+
+_REFFILE = _re.compile(r"(refs/.+|packed-refs|HEAD)$")
+W_MAINT = ["repack", "repack", "packloose", "gc0", "gcNone", "gc3600", "porcelain-gc"]
+W_WRITERS = ["add_objects", "add_pack", "thin", "fetch"]
+
+
+def _maint_significant(call, paths):
+    dst = paths[-1] if paths else ""
+    return (call == "listdir" and dst == "objects/pack") or _packer_significant(call, paths)
+
+
+def _writer_significant(call, paths):
+    dst = paths[-1] if paths else ""
+    if call in ("rename", "replace") and (_PACKFILE.fullmatch(dst or "") or _LOOSEFILE.fullmatch(dst or "")
+                                          or _REFFILE.fullmatch(dst or "")):
+        return True
+    return False
+
+
+class WScenario:
+    pass
+
+
+def build_wscenario(ctx, idx, seed=None):
+    """Template repository + a source repository (outside the watched root) that has the writer's new commit."""
+    import random
+    from dulwich.repo import Repo
+    from dulwich.objects import Blob, Tree, Commit
+    rng = _case_rng(ctx, "wr", idx) if seed is None else random.Random(f"C10:{seed}:wr:{idx}")
+    sc = WScenario()
+    sc.idx = idx
+    sc.template = ctx.scratch / f"wr{idx}-tpl"
+    sc.src = ctx.scratch / f"wr{idx}-src"
+    for d in (sc.template, sc.src):
+        shutil.rmtree(d, ignore_errors=True)
+        d.mkdir(parents=True)
+    salt = rng.getrandbits(30)
+
+    def commit(tree, parents, n):
+        c = Commit()
+        c.tree = tree.id
+        c.parents = [p.id for p in parents]
+        c.author = c.committer = b"A U Thor <a@example.com>"
+        c.author_time = c.commit_time = 1000 + n
+        c.author_timezone = c.commit_timezone = 0
+        c.message = b"w %d %d\n" % (salt, n)
+        return c
+    b = [Blob.from_string(b"base %d %d\n" % (salt, i) + b"y" * 50) for i in range(3)]
+    t0 = Tree()
+    for i, x in enumerate(b):
+        t0.add(b"f%d" % i, 0o100644, x.id)
+    c0 = commit(t0, [], 0)
+    u_old = Blob.from_string(b"unreachable old %d\n" % salt)
+    u_young = Blob.from_string(b"unreachable young %d\n" % salt)
+    nb = Blob.from_string(b"base %d 0\n" % salt + b"y" * 50 + b"new line\n")   # delta-able against b[0]
+    nt = Tree()
+    nt.add(b"f0", 0o100644, b[0].id)
+    nt.add(b"n", 0o100644, nb.id)
+    nc = commit(nt, [c0], 1)
+    base = b + [t0, c0]
+    sc.base = {o.id.decode(): (o.type_num, o.as_raw_string()) for o in base}
+    sc.new = {o.id.decode(): (o.type_num, o.as_raw_string()) for o in (nb, nt, nc)}
+    sc.kids = {nc.id.decode(): [nt.id.decode(), c0.id.decode()], nt.id.decode(): [b[0].id.decode(), nb.id.decode()],
+               c0.id.decode(): [t0.id.decode()], t0.id.decode(): [x.id.decode() for x in b]}
+    sc.objs = dict(sc.base, **sc.new)
+    sc.objs[u_old.id.decode()] = (u_old.type_num, u_old.as_raw_string())
+    sc.objs[u_young.id.decode()] = (u_young.type_num, u_young.as_raw_string())
+    sc.u_old, sc.u_young = u_old.id.decode(), u_young.id.decode()
+    sc.c0, sc.nc, sc.b0 = c0.id.decode(), nc.id.decode(), b[0].id.decode()
+    sc.writer_objs = (nb, nt, nc)
+    repo = Repo.init_bare(str(sc.template))
+    st = repo.object_store
+    names = list(base)
+    rng.shuffle(names)
+    npacks = rng.choice([1, 1, 2])
+    cut = sorted(rng.sample(range(len(names) + 1), npacks))
+    groups, prev = [], 0
+    for c_ in cut:
+        groups.append(names[prev:c_])
+        prev = c_
+    rest = names[prev:]
+    ages = {}
+    for g_ in groups:
+        if g_:
+            pk = st.add_objects([(o, None) for o in g_])
+            ages[pk._basename + ".pack"] = 7200
+            ages[pk._basename + ".idx"] = 7200
+    for o in rest:
+        st.add_object(o)
+    where_u = rng.choice(["loose", "pack"])
+    if where_u == "loose":
+        st.add_object(u_old)
+    else:
+        pk = st.add_objects([(u_old, None)])
+        ages[pk._basename + ".pack"] = 7200
+        ages[pk._basename + ".idx"] = 7200
+    st.add_object(u_young)
+    repo.refs[b"refs/heads/main"] = c0.id
+    repo.close()
+    now = time.time()
+    for dp, _, fs in os.walk(sc.template / "objects"):
+        for f in fs:
+            pth = os.path.join(dp, f)
+            age = 60 if f == u_young.id.decode()[2:] else 7200
+            os.utime(pth, (now - age, now - age))
+    core.sh(["git", "-C", str(sc.template), "config", "receive.unpackLimit", "1"], env=core.clean_env())
+    core.sh(["git", "-C", str(sc.template), "config", "fetch.unpackLimit", "1"], env=core.clean_env())
+    srepo = Repo.init_bare(str(sc.src))
+    srepo.object_store.add_objects([(o, None) for o in base + [nb, nt, nc]])
+    srepo.refs[b"refs/heads/new"] = nc.id
+    srepo.refs[b"refs/heads/main"] = c0.id
+    srepo.close()
+    sc.maint = rng.choice(W_MAINT)
+    sc.writer = rng.choice(W_WRITERS)
+    sc.refmode = rng.choice(["new-ref", "move-main"])
+    sc.layout = {"packs": [len(g_) for g_ in groups if g_], "loose": len(rest), "u_old": where_u}
+    return sc
+
+
+def _wdescribe(sc):
+    return {"maint": sc.maint, "writer": sc.writer, "refmode": sc.refmode, "layout": sc.layout}
+
+
+def _maint_fn(sc, work):
+    def fn():
+        from dulwich.repo import Repo
+        from dulwich.gc import garbage_collect
+        from dulwich import porcelain
+        repo = Repo(str(work))
+        try:
+            m = sc.maint
+            if m == "repack":
+                repo.object_store.repack()
+            elif m == "packloose":
+                repo.object_store.pack_loose_objects()
+            elif m == "gc0":
+                garbage_collect(repo, grace_period=0)
+            elif m == "gcNone":
+                garbage_collect(repo, grace_period=None)
+            elif m == "gc3600":
+                garbage_collect(repo, grace_period=3600)
+            else:
+                porcelain.gc(repo)
+        finally:
+            repo.close()
+    return fn
+
+
+def _writer_fn(sc, work):
+    def fn():
+        from io import BytesIO
+        from dulwich.repo import Repo
+        from dulwich.pack import REF_DELTA, write_pack_objects
+        from dulwich.tests.utils import build_pack
+        repo = Repo(str(work))
+        try:
+            st = repo.object_store
+            nb, nt, nc = sc.writer_objs
+            if sc.writer == "add_objects":
+                st.add_objects([(o, None) for o in (nb, nt, nc)])
+            elif sc.writer == "add_pack":
+                f, commit, abort = st.add_pack()
+                try:
+                    write_pack_objects(f.write, [(o, None) for o in (nb, nt, nc)], object_format=st.object_format)
+                except BaseException:
+                    abort()
+                    raise
+                commit()
+            elif sc.writer == "thin":
+                buf = BytesIO()
+                build_pack(buf, [(REF_DELTA, (sc.b0.encode(), nb.as_raw_string())), (nt.type_num, nt.as_raw_string()),
+                                 (nc.type_num, nc.as_raw_string())], st)
+                st.add_thin_pack(buf.read, None)
+            else:
+                from dulwich.client import LocalGitClient
+                LocalGitClient().fetch(str(sc.src), repo, determine_wants=lambda *a, **kw: [nc.id])
+            if sc.refmode == "new-ref":
+                return repo.refs.set_if_equals(b"refs/heads/new", None, nc.id)
+            return repo.refs.set_if_equals(b"refs/heads/main", sc.c0.encode(), nc.id)
+        finally:
+            repo.close()
+    return fn
+
+
+def _run_writer_schedule(ctx, sc, work, schedule, external=None):
+    """Both actors on a fresh copy following the block schedule.  Returns (scheduler, released sequence)."""
+    from harness import sched as S
+    shutil.rmtree(work, ignore_errors=True)
+    shutil.copytree(sc.template, work, symlinks=True)
+    s = S.Scheduler(str(work))
+    s.spawn("M", _maint_fn(sc, work))
+    if external is None:
+        s.spawn("W", _writer_fn(sc, work))
+    seq = list(schedule)
+    state = {"cur": None, "done": True, "mblocks": 0}
+    released = []
+
+    def choose(pending, history):
+        if state["cur"] is None or state["done"] or state["cur"] not in pending:
+            a = None
+            while seq:
+                t = seq.pop(0)
+                if t in pending:
+                    a = t
+                    break
+            if a is None:
+                a = sorted(pending)[0]
+            state["cur"], state["done"] = a, False
+        a = state["cur"]
+        call, paths = pending[a]
+        if (_maint_significant if a == "M" else _writer_significant)(call, paths):
+            state["done"] = True
+            if a == "M":
+                if external is not None and state["mblocks"] == external[0]:
+                    external[1]()
+                state["mblocks"] += 1
+        released.append(a)
+        return a
+    s.run(choose)
+    if external is not None and state["mblocks"] <= external[0]:
+        external[1]()
+    return s, released
+
+
+def _wblock_lengths(ctx, sc, work):
+    lens = {}
+    for a, fn, sig in (("M", _maint_fn(sc, work), _maint_significant), ("W", _writer_fn(sc, work), _writer_significant)):
+        from harness import sched as S
+        shutil.rmtree(work, ignore_errors=True)
+        shutil.copytree(sc.template, work, symlinks=True)
+        s = S.Scheduler(str(work))
+        s.spawn(a, fn)
+        ev = s.run([])
+        lens[a] = sum(1 for e in ev if sig(e[1], e[2])) + 1
+    return lens
+
+
+def _writer_oracle(ctx, stream, sc, work, s, released, schedule, bad_before, env, extra_case=None):
+    """After both actors have finished: refs' closure readable (fresh store, git fsck --connectivity-only); what is gone
+    was unreachable when maintenance started and older than the grace period."""
+    hist = [e for e in s.history if e[1] != "start"]
+    mexc = s.results["M"].exc
+    wres = s.results.get("W")
+    wexc = wres.exc if wres is not None else None
+    case = dict({"kind": "writer", "scenario_idx": sc.idx, "seed": ctx.seed, "scenario": _wdescribe(sc),
+                 "schedule": list(schedule), "released": _rle(released),
+                 "maint_raised": None if mexc is None else f"{type(mexc).__name__}: {mexc}"[:120],
+                 "writer_raised": None if wexc is None else f"{type(wexc).__name__}: {wexc}"[:120],
+                 "pack_events": [(e[0], e[1], (e[2][-1] or "")[-52:]) for e in hist
+                                 if e[3] == "ok" and (_packer_significant(e[1], e[2]) or
+                                                      (e[1] == "listdir" and e[2][-1] == "objects/pack") or
+                                                      (e[1] in ("rename", "replace") and _REFFILE.fullmatch(e[2][-1] or "")))][:80]},
+                **(extra_case or {}))
+    from dulwich.repo import Repo
+    repo = Repo(str(work))
+    try:
+        refs = {}
+        for k in repo.refs.allkeys():
+            try:
+                refs[k] = repo.refs[k].decode()
+            except KeyError:
+                pass
+        roots = set(refs.values())
+        clos, todo = set(), list(roots)
+        while todo:
+            h = todo.pop()
+            if h not in clos:
+                clos.add(h)
+                todo.extend(sc.kids.get(h, []))
+        bad = []
+        for h in sorted(clos):
+            try:
+                got = repo.object_store.get_raw(h.encode())
+            except KeyError:
+                got = None
+            if got != sc.objs.get(h):
+                bad.append(h)
+    finally:
+        repo.close()
+    tag = f"{sc.maint}:{sc.writer}:{'Wraised' if wexc else 'Wok'}:{'Mraised' if mexc else 'Mok'}"
+    n_fail = 0
+    grace = {"gc0": 0, "gcNone": None, "gc3600": 3600, "porcelain-gc": GIT_DEFAULT_GRACE}.get(sc.maint, "no-prune")
+    # -- how the writer's pack fared, from the events
+    w_packs = {_PACKFILE.fullmatch(e[2][-1]).group(1) for e in hist if e[0] == "W" and e[1] in ("rename", "replace")
+               and e[3] == "ok" and _PACKFILE.fullmatch(e[2][-1] or "")}
+    m_rm = [(_PACKFILE.fullmatch(e[2][-1]).group(1), _PACKFILE.fullmatch(e[2][-1]).group(2)) for e in hist
+            if e[0] == "M" and e[1] in ("remove", "unlink") and e[3] == "ok" and _PACKFILE.fullmatch(e[2][-1] or "")]
+    m_rm_w_data = any(n in w_packs and ext == "pack" for n, ext in m_rm)
+    m_rm_w_idx = any(n in w_packs and ext == "idx" for n, ext in m_rm)
+    # gc(grace_period=0) ends with object_store.prune(grace_period=0): a `.pack` whose `.idx` has not arrived yet counts
+    # as an orphaned temporary file of age > 0 and is deleted — while its writer is still installing it
+    tempfile_case = sc.maint == "gc0" and m_rm_w_data and not m_rm_w_idx
+    # the one exemption: pruning with no grace period objects that were on disk but not yet referenced when the
+    # reachability scan read the refs (a ref created between the scan and the deletion)
+    t_ref = max([i for i, e in enumerate(hist) if e[0] == "W" and e[1] in ("rename", "replace")
+                 and _REFFILE.fullmatch(e[2][-1] or "")] or [-1])
+    t_pack = max([i for i, e in enumerate(hist) if e[0] == "W" and e[1] in ("rename", "replace")
+                  and _PACKFILE.fullmatch(e[2][-1] or "")] or [10 ** 9])
+    m_refread = min([i for i, e in enumerate(hist) if e[0] == "M" and _REFFILE.fullmatch((e[2][-1] if e[2] else "") or "")]
+                    or [10 ** 9])
+    m_first_rm = min([i for i, e in enumerate(hist) if e[0] == "M" and e[1] in ("remove", "unlink")
+                      and (e[2][-1] or "").startswith("objects/")] or [10 ** 9])
+    m_lists = [i for i, e in enumerate(hist) if e[0] == "M" and e[1] == "listdir" and e[2][-1] == "objects/pack"
+               and i < m_first_rm]
+    exempt = grace in (0, None) and t_ref > m_refread and bool(m_lists) and t_pack < max(m_lists)
+
+    def new_objects_lost(what, lost):
+        nonlocal n_fail, tag
+        if tempfile_case:
+            ctx.oracle_fail(stream, dict(case, lost=lost), what + " — gc(grace_period=0)'s temp-file prune deleted the pack "
+                            "while its index was still being written", CLS_TMPPRUNE)
+            n_fail += 1
+        elif exempt:
+            tag += ":exempt-scan-race"
+        else:
+            ctx.oracle_fail(stream, dict(case, lost=lost), what, None)
+            n_fail += 1
+    if bad:
+        if set(bad) <= set(sc.new):
+            new_objects_lost(f"after {sc.maint} and a concurrent {sc.writer} writer both finished, "
+                             f"{[k.decode() for k, v in refs.items() if v == sc.nc][:2]} point at the writer's commit whose "
+                             f"objects are gone: {bad[0]}", bad)
+        else:
+            ctx.oracle_fail(stream, dict(case, refs={k.decode(): v for k, v in refs.items()}, missing=bad),
+                            f"after {sc.maint} and a concurrent {sc.writer} writer both finished a base object reachable from "
+                            f"the refs is gone: {bad[0]}", None)
+            n_fail += 1
+    else:
+        rc, out = core.sh(["git", "-C", str(work), "-c", "core.commitGraph=false", "-c", "core.multiPackIndex=false", "fsck",
+                           "--connectivity-only", "--no-dangling", "--no-progress"], env=env, timeout=120)
+        new_bad = {l for l in out.splitlines() if (l.startswith(("missing", "broken link", "error", "fatal", "bad ")) and "reflog" not in l)} - bad_before
+        if new_bad:
+            ctx.oracle_fail(stream, dict(case, fsck=sorted(new_bad)[:5]),
+                            f"git fsck --connectivity-only after {sc.maint} + concurrent {sc.writer}: {sorted(new_bad)[0]}", None)
+            n_fail += 1
+    # what is gone?
+    lo, pk = observe(work / "objects")
+    present = set(lo) | {h for ids, _ in pk.values() for h in ids}
+    for h in sorted(set(sc.base) - present):
+        ctx.oracle_fail(stream, dict(case, object=h), f"base object (reachable when {sc.maint} started) is gone: {h}", None)
+        n_fail += 1
+    for h, age in ((sc.u_old, 7200), (sc.u_young, 60)):
+        if h not in present and (grace == "no-prune" or (grace is not None and age < grace)):
+            ctx.oracle_fail(stream, dict(case, object=h, age=age, grace=grace),
+                            f"unreachable object only {age} s old disappeared during {sc.maint} (grace {grace})", None)
+            n_fail += 1
+    if wres is not None and wexc is None and not bad:
+        gone_new = sorted(set(sc.new) - present)
+        if gone_new:
+            new_objects_lost(f"objects the {sc.writer} writer stored while {sc.maint} ran are gone although the writer "
+                             f"succeeded: {gone_new[0]}", gone_new)
+    sc.last_tempfile_case = tempfile_case
+    if wexc is not None or mexc is not None:
+        d = ctx.extra_cov.setdefault("writer_stream_exceptions", {})
+        for who, e in (("W", wexc), ("M", mexc)):
+            if e is not None:
+                k = f"{who}:{sc.maint}:{sc.writer}:{type(e).__name__}"
+                d[k] = d.get(k, 0) + 1
+    ctx.count(stream, (sc.idx, tuple(schedule), sc.maint, sc.writer), True, tag)
+    return n_fail, hist, pk
+
+
+def _mexec_line(sc, hist, pk_final):
+    """Abstract the run for the Lean procedure model (repack-like maintenance only): initial packs, the writer's pack
+    becoming complete relative to the repacker's steps, final packs."""
+    names = {}
+
+    def num(n):
+        return names.setdefault(n, len(names) + 1)
+    m_installs = [i for i, e in enumerate(hist) if e[0] == "M" and e[1] in ("rename", "replace") and e[3] == "ok"
+                  and _PACKFILE.fullmatch(e[2][-1] or "")]
+    if not m_installs:
+        return None
+    inst_idx = max(i for i in m_installs if hist[i][2][-1].endswith(".idx")) if any(hist[i][2][-1].endswith(".idx") for i in m_installs) else None
+    inst_data = min(m_installs)
+    if inst_idx is None:
+        return None
+    newp = _PACKFILE.fullmatch(hist[inst_idx][2][-1]).group(1)
+    lists = [i for i, e in enumerate(hist) if e[0] == "M" and e[1] == "listdir" and e[2][-1] == "objects/pack" and i < inst_data]
+    if len(lists) < 2:
+        return None
+    snap_t = lists[-2]          # `old_packs = {... for p in self.packs}`; lists[-1] is _complete_pack's own listing
+    w_idx = [i for i, e in enumerate(hist) if e[0] == "W" and e[1] in ("rename", "replace") and e[3] == "ok"
+             and (e[2][-1] or "").endswith(".idx") and _PACKFILE.fullmatch(e[2][-1] or "")]
+    removes = [i for i, e in enumerate(hist) if e[0] == "M" and e[1] in ("remove", "unlink") and e[3] == "ok"
+               and (e[2][-1] or "").endswith(".pack") and _PACKFILE.fullmatch(e[2][-1] or "")]
+    lo, pk0 = observe(sc.template / "objects")
+    init = sorted(pk0)
+    toks = []
+    wname = _PACKFILE.fullmatch(hist[w_idx[0]][2][-1]).group(1) if w_idx else None
+    if wname == newp:
+        return None
+    wt = w_idx[0] if w_idx else None
+    pending_w = wt is not None
+    if pending_w and wt < snap_t:
+        init.append(wname)
+        pending_w = False
+    marks = [snap_t, inst_idx, (removes[0] if removes else 10 ** 9)] + removes
+    # model steps: start | install | fix targets | one per removed pack | finish
+    steps = [snap_t, inst_idx, (removes[0] - 0.5 if removes else inst_idx + 0.5)] + removes + [10 ** 9]
+    for t in steps:
+        if pending_w and wt < t:
+            toks.append(f"i{num(wname)}")
+            pending_w = False
+        toks.append("m")
+    if pending_w:
+        toks.append(f"i{num(wname)}")
+    toks.append("m")
+    init_nums = [num(n) for n in init]
+    line = " ".join(["c10.mexec", "0", str(num(newp)), _enc_ids(init_nums)] + toks)
+    want = _enc_ids(sorted(num(n) for n in pk_final if n in names or True)) + "|done"
+    return line, want
+
+
+def run_wscenario(ctx, sc, stream, max_pre, cap, nrandom, only=None):
+    from harness import sched as S
+    rng = _case_rng(ctx, "wrs", sc.idx)
+    work = ctx.scratch / f"wr{sc.idx}-work"
+    env = core.clean_env()
+    rc, out = core.sh(["git", "-C", str(sc.template), "-c", "core.commitGraph=false", "fsck", "--connectivity-only",
+                       "--no-dangling", "--no-progress"], env=env, timeout=120)
+    bad_before = {l for l in out.splitlines() if (l.startswith(("missing", "broken link", "error", "fatal", "bad ")) and "reflog" not in l)}
+    if only is not None:
+        schedules = [list(x) for x in only]
+    else:
+        lens = _wblock_lengths(ctx, sc, work)
+        schedules = _schedules_for(ctx, rng, lens, max_pre, cap) + [_random_schedule(rng, lens) for _ in range(nrandom)]
+    lines, wants, metas = [], [], []
+    seen = set()
+    for schedule in schedules:
+        if tuple(schedule) in seen:
+            continue
+        seen.add(tuple(schedule))
+        s, released = _run_writer_schedule(ctx, sc, work, schedule)
+        nf, hist, pk_final = _writer_oracle(ctx, stream, sc, work, s, released, schedule, bad_before, env)
+        if sc.maint != "packloose" and s.results["M"].exc is None and s.results["W"].exc is None \
+                and not sc.last_tempfile_case:
+            ml = _mexec_line(sc, hist, pk_final)
+            if ml is not None:
+                lines.append(ml[0])
+                # final packs in the model's numbering: recompute with the same naming
+                wants.append((ml, hist, pk_final))
+                metas.append({"kind": "writer", "scenario_idx": sc.idx, "seed": ctx.seed, "scenario": _wdescribe(sc),
+                              "schedule": list(schedule)})
+    shutil.rmtree(work, ignore_errors=True)
+    if lines:
+        outs = ctx.driver.batch(lines)
+        for (ml, hist, pk_final), meta, o in zip(wants, metas, outs):
+            ctx.count(stream + ".model", (sc.idx, ml[0]), True, sc.maint)
+            # compare the NUMBER of complete packs and whether the writer's pack is among them (names are abstracted)
+            model_n = 0 if o.split("|")[0] == "-" else len(o.split("|")[0].split(","))
+            if not o.endswith("|done") or model_n != len(pk_final):
+                ctx.disagree(stream + ".model", dict(meta, line=ml[0]), o, f"{len(pk_final)} packs at the end: {sorted(pk_final)}")
+    return len(seen)
+
+
+def _stream_writer(ctx, nscen, max_pre, cap, nrandom, stream="sched.writer", first_idx=0):
+    total = 0
+    for i in range(nscen):
+        sc = build_wscenario(ctx, first_idx + i)
+        if i < len(W_MAINT):          # every maintenance op at least once, against rotating writers
+            sc.maint = sorted(set(W_MAINT))[i % len(set(W_MAINT))]
+            sc.writer = W_WRITERS[i % len(W_WRITERS)]
+        try:
+            total += run_wscenario(ctx, sc, stream, max_pre, cap, nrandom)
+        finally:
+            shutil.rmtree(sc.template, ignore_errors=True)
+            shutil.rmtree(sc.src, ignore_errors=True)
+    ctx.extra_cov["writer_schedules"] = ctx.extra_cov.get("writer_schedules", 0) + total
+
+
+def _stream_writer_git(ctx, nscen, stream="sched.writer.git", first_idx=400000):
+    """thorough: a real `git fetch` / `git push` PROCESS lands the pack and the ref between two maintenance steps"""
+    env = core.clean_env()
+    total = 0
+    for i in range(nscen):
+        sc = build_wscenario(ctx, first_idx + i)
+        sc.writer = "git-fetch" if i % 2 == 0 else "git-push"
+        sc.refmode = "new-ref"
+        work = ctx.scratch / f"wr{sc.idx}-work"
+        try:
+            rc, out = core.sh(["git", "-C", str(sc.template), "-c", "core.commitGraph=false", "fsck", "--connectivity-only",
+                               "--no-dangling", "--no-progress"], env=env, timeout=120)
+            bad_before = {l for l in out.splitlines() if (l.startswith(("missing", "broken link", "error", "fatal", "bad ")) and "reflog" not in l)}
+            from harness import sched as S
+            shutil.rmtree(work, ignore_errors=True)
+            shutil.copytree(sc.template, work, symlinks=True)
+            s0 = S.Scheduler(str(work))
+            s0.spawn("M", _maint_fn(sc, work))
+            nblocks = sum(1 for e in s0.run([]) if _maint_significant(e[1], e[2])) + 1
+            for k in range(nblocks + 1):
+                def ext(work=work):
+                    if sc.writer == "git-fetch":
+                        cmd = ["git", "-C", str(work), "fetch", "-q", str(sc.src), "refs/heads/new:refs/heads/new"]
+                    else:
+                        cmd = ["git", "-C", str(sc.src), "push", "-q", str(work), "refs/heads/new:refs/heads/new"]
+                    rc, out = core.sh(cmd, env=env, timeout=120)
+                    if rc != 0:
+                        raise core.InfraError(f"{' '.join(cmd)} failed: {out[-300:]}")
+                s, released = _run_writer_schedule(ctx, sc, work, [], external=(k, ext))
+                _writer_oracle(ctx, stream, sc, work, s, released, [f"{sc.writer}-before-maintenance-block-{k}"], bad_before,
+                               env, {"external_before_block": k})
+                total += 1
+        finally:
+            for d in (sc.template, sc.src, work):
+                shutil.rmtree(d, ignore_errors=True)
+    ctx.extra_cov["writer_git_runs"] = ctx.extra_cov.get("writer_git_runs", 0) + total
+
+
+# ------------------------------------------------------------------------------------------------
 # corpus (negation witnesses of the known findings + regression cases), run first
 
 def _run_corpus(ctx):
@@ -1987,6 +2538,14 @@ def _run_corpus(ctx):
             if out:
                 recs.extend(out)
             shutil.rmtree(ctx.scratch / f"lg{800000 + k}", ignore_errors=True)
+        elif c.get("kind") == "writer":
+            sc = build_wscenario(ctx, c["scenario_idx"], seed=c.get("scenario_seed", 0))
+            sc.maint, sc.writer, sc.refmode = c["maint"], c["writer"], c["refmode"]
+            try:
+                run_wscenario(ctx, sc, "corpus.writer", 0, 0, 0, only=[c["schedule"]])
+            finally:
+                shutil.rmtree(sc.template, ignore_errors=True)
+                shutil.rmtree(sc.src, ignore_errors=True)
         elif c.get("kind") == "sched":
             spec = dict(c["spec"])
             spec["readers"] = [[tuple(x) for x in ops] for ops in spec["readers"]]
@@ -2018,6 +2577,11 @@ def run(ctx: core.Ctx):
     _stream_logical(ctx, ctx.budget(120, mult=10))
     _stream_stale(ctx, ctx.budget(40, mult=8))
     if ctx.thorough:
+        _stream_writer(ctx, 24, 2, 120, 20)
+        _stream_writer_git(ctx, 12)
+    else:
+        _stream_writer(ctx, ctx.budget(7), 2, 36, 6)
+    if ctx.thorough:
         _stream_sched(ctx, 60, 2, 250, 30)
         _stream_sched(ctx, 16, 3, 400, 50, first_idx=100000)
         _stream_retry_bound(ctx)
@@ -2037,6 +2601,9 @@ def search(ctx: core.Ctx):
     _stream_stale(ctx, 150, stream="search.stale", first_idx=200000)
     if ctx.oracle_failures:
         return
+    _stream_writer(ctx, 20, 3, 300, 40, stream="search.writer", first_idx=200000)
+    if ctx.oracle_failures:
+        return
     _stream_sched(ctx, 16, 3, 500, 60, stream="search.sched", first_idx=300000)
     if ctx.oracle_failures:
         return
@@ -2051,6 +2618,13 @@ def replay(ctx: core.Ctx, data: dict) -> int:
         recs = logical_case(ctx, c["case"], spec=c.get("spec"), stream="replay")
         if recs:
             _compare_logical(ctx, recs, "replay")
+    elif c.get("kind") == "writer":
+        if "external_before_block" in c:
+            print("replay of git fetch/push runs: re-run ./check C10 --tier thorough with the same seed")
+            return 0
+        sc = build_wscenario(ctx, c["scenario_idx"])
+        sc.maint, sc.writer, sc.refmode = c["scenario"]["maint"], c["scenario"]["writer"], c["scenario"]["refmode"]
+        run_wscenario(ctx, sc, "replay", 0, 0, 0, only=[c["schedule"]])
     elif c.get("kind") == "stale":
         t = c.get("targeted")
         if t is not None:
